@@ -58,6 +58,11 @@ def run(ctx):
     lp = ctx.path("lockfaults.ndjson")
     vlib.run_bin("fault_driver", ["enum", "--seed", ctx.seed, "--points", 40 if ctx.quick else 100000, "--locks", "--out", lp], timeout=3000)
     ev += vlib.read_ndjson(lp)
+    # dedicated reproduction of the recorded finding F40 (commit fails while saving the metas, the
+    # writer is kept, a merge publishes the registers of the failed commit)
+    fp = ctx.path("f40.ndjson")
+    vlib.run_bin("fault_driver", ["f40", "--out", fp], timeout=120)
+    ev += vlib.read_ndjson(fp)
     runs = api_runs(ev)
     runs = [r for r in runs if any(e["ev"] != "summary" for e in r)]
     fired = sum(1 for r in runs if nontrivial(r))
